@@ -27,6 +27,7 @@ import (
 
 	"pgregory.net/rapid"
 
+	"gitlab.com/yawning/secp256k1-voi/verifharness/gen"
 	"gitlab.com/yawning/secp256k1-voi/verifharness/opclient"
 	"gitlab.com/yawning/secp256k1-voi/verifharness/opgen"
 	"gitlab.com/yawning/secp256k1-voi/verifharness/stat"
@@ -275,7 +276,7 @@ func loadSites() map[uint64]string {
 			return
 		}
 		var ss []struct {
-			ID               uint64
+			ID              uint64
 			Pos, Kind, Expr string
 		}
 		if json.Unmarshal(b, &ss) == nil {
@@ -437,7 +438,7 @@ func propNoVartime(t *rapid.T) {
 	op := drawSecretOp(t)
 	req := opgen.Draw(t, op, "r")
 	line := opclient.Line(req.Op, req.Args...)
-	s := rapid.SampledFrom(srv).Draw(t, "build")
+	s := gen.Sampled(srv).Draw(t, "build")
 	prof, err := profile(s, line)
 	if err != nil {
 		t.Fatalf("%v: %v", opclient.ErrHarness, err)
